@@ -170,6 +170,11 @@ def _check(job):
             from graphtage.plist import PLISTNode
             ba = lambda: PLISTNode(gt.build(a, opt))
             bb = lambda: gt.build(b, opt)
+        elif fmt in ('pyast', 'pyobj'):
+            # Python source -> tree of data-class nodes / Python object -> PyObj tree (diff() works on make_edited() copies, whose
+            # classes are the dynamically created Edited* subclasses: the three views take different routes through edits())
+            ba = lambda: gt.build_any((fmt, a), opt)[0]
+            bb = lambda: gt.build_any((fmt, b), opt)[0]
         else:
             ba = lambda: C01._build(fmt, a, opt)
             bb = lambda: C01._build(fmt, b, opt)
@@ -261,6 +266,14 @@ def bounded(tier, seed, repo_root):
     for sa, sb in big:
         for o in (gt.OPTION_COMBOS[0], gt.OPTION_COMBOS[3]):      # (list edits on: positional pairing of unrelated long strings takes minutes)
             jobs.append(('biglist', sa, sb, o))
+    ps = gt.pyast_sources()
+    pp = [(x, y) for x in ps for y in ps if x is not y]
+    rnd.shuffle(pp)
+    for x, y in pp[:250 if tier == 'quick' else 2500]:
+        jobs.append(('pyast', x, y, gt.OPTION_COMBOS[rnd.randrange(9)]))
+    po = [d for d in docs if isinstance(d, (dict, list))]
+    for _ in range(150 if tier == 'quick' else 1500):
+        jobs.append(('pyobj', rnd.choice(po), rnd.choice(po), gt.OPTION_COMBOS[rnd.randrange(9)]))
     jobs += _size_jobs()      # (DataClassNode.calculate_total_size is not under contract: bounded here)
     res = pmap(_check, jobs, repo_root, job_timeout=60, on_timeout=timeout_failure('C03'))
     fails = [f for fs in res for f in fs if f['class'].startswith('c03-')]
